@@ -65,7 +65,7 @@ def main(tier, seed, replay=None):
     def check(label, outcome, obj, dur, must_raise):
         if outcome == 'hang':
             hangs[0] += 1
-        res.count('outcome:' + outcome); res.case(label, nontrivial=must_raise, sample=dict(case=label, outcome=outcome, seconds=round(dur, 2)) if hash(label) % 11 == 0 else None)
+        res.count('outcome:' + outcome); res.case(label, nontrivial=must_raise, sample=dict(case=label, outcome=outcome, seconds=round(dur, 2)) if res.evaluations % 9 == 0 else None)
         if outcome == 'hang':
             res.violation(dict(case=list(label)), f'the constructor did not return within {HANG:.0f} s')
             if hangs[0] >= 3:
